@@ -112,7 +112,7 @@ pub(crate) mod verif_enc {
         pub fn new() -> Self {
             Sink { ci: 0, wi: 0, len: 0, writes: 0, flushes: 0, flushed_len: 0, wfault_at: NONE, ffault_at: NONE,
                    fault_kind: 3, zero_at: NONE, mismatch: false, beyond: false, limit: false, faulted: false, after_fault: false, interrupted_once: false,
-                   nat: Vec::new() }
+                   nat: Vec::with_capacity(1) } // (never a capacity-0 Vec: Kani model quirk on drop)
         }
         fn take(&mut self, buf: &[u8]) {
             let a = unsafe { AADLEN };
@@ -200,7 +200,7 @@ pub(crate) mod verif_enc {
         pub fn new() -> Self {
             let ks: [usize; 4] = kani::any();
             ShortSink { exp: [0; 36], exp_len: 0, built: false, pos: 0, writes: 0, flushed_len: 0, mismatch: false, beyond: false, limit: false, in_rest: false, splits: 0,
-                        ks, firsts: 0, nat: Vec::new() }
+                        ks, firsts: 0, nat: Vec::with_capacity(1) }
         }
         fn build(&mut self) {
             if self.built { return; }
